@@ -881,7 +881,8 @@ def worker_contracts(tier):
                  bound='input (a) [quick] / (f x) y [thorough], one '
                  'scripted mutator, every flag read arbitrary',
                  assumptions=A, max_paths=50000))
-    return cs
+    from . import producer
+    return cs + producer.contracts(tier)
 
 
 # ---------------------------------------------------------------------------
